@@ -34,7 +34,7 @@ HARNESSES = [
     HC('h_sysv64_20', 20, 'as h_sysv64_8', tiers=('thorough',), mem=8, timeout=2400),
     HC('h_win64_20', 20, 'as h_win64_8', tiers=('thorough',), mem=8, timeout=2400),
     HC('h_vectorcall64_20', 20, 'as h_vectorcall64_8', tiers=('thorough',), mem=8, timeout=2400),
-    HC('h_x86_32_20', 20, 'as h_x86_32_8', tiers=('thorough',), mem=8, timeout=2400),
+    HC('h_x86_32_20', 20, 'as h_x86_32_8', tiers=('thorough',), mem=8, timeout=4800),
     HC('h_aapcs64_20', 20, 'as h_aapcs64_12', tiers=('thorough',), mem=8, timeout=2400),
     HC('h_apple64_20', 20, 'as h_apple64_12', tiers=('thorough',), mem=8, timeout=2400),
 ]
